@@ -38,12 +38,16 @@ inductive Val
   | none
   | int (n : Int)
   | ref (c : CellId)
+  /-- a tuple whose items are list objects (`([0, 0], [0, 0])`): immutable itself, its items are not.  Tuples are
+  created by literals and by `copy.deepcopy` only, so the items of one tuple are distinct objects. -/
+  | tup (cs : List CellId)
   deriving DecidableEq, Repr
 
 def Val.cells : Val → List CellId
   | .none => []
   | .int _ => []
   | .ref c => [c]
+  | .tup cs => cs
 
 /-- Parameter types: `param.Parameter`, `param.Integer`, `param.Selector` -/
 inductive Kind | plain | number | selector
@@ -126,6 +130,8 @@ inductive Lit
   | none
   | int (n : Int)
   | list (l : List Int)
+  /-- a tuple display of list displays: `([..], [..])` -/
+  | tup (ls : List (List Int))
   /-- a reference that has no value at this moment (`param.bind(f)` with `f` raising `param.Skip`, a pending
   async function): meaningful only as constructor keyword of an `allow_refs` parameter, where it assigns
   nothing; everywhere else outside the fragment -/
@@ -136,17 +142,20 @@ def evalLit (cells : List (List Int)) : Lit → Val × List (List Int)
   | .none => (.none, cells)
   | .int n => (.int n, cells)
   | .list l => (.ref cells.length, cells ++ [l])
+  | .tup ls => (.tup ((List.range ls.length).map (cells.length + ·)), cells ++ ls)
   | .pending => (.none, cells)      -- never stored: every use is guarded by `Lit.isPending`
 
 def Lit.isPending : Lit → Bool
   | .pending => true
   | _ => false
 
-/-- `copy.deepcopy(v)` for an int or a list of ints -/
+/-- `copy.deepcopy(v)` for an int, a list of ints, or a tuple of (distinct) lists of ints: the tuple is rebuilt
+around copies of its items -/
 def deepcopyVal (cells : List (List Int)) : Val → Val × List (List Int)
   | .none => (.none, cells)
   | .int n => (.int n, cells)
   | .ref c => (.ref cells.length, cells ++ [deref cells c])
+  | .tup cs => (.tup ((List.range cs.length).map (cells.length + ·)), cells ++ cs.map (deref cells))
 
 /-- `for s in slots: if _is_mutable_container(v) and s != "default": setattr(p, s, copy.copy(v))`
     -- src: parameterized.py _instantiate_param_obj -/
@@ -222,6 +231,7 @@ def validate (cells : List (List Int)) (p : PObj) (v : Val) : Except Err (List (
     match v with
     | .none => .error .valueError        -- `allow_None` is False for an Integer with an int default
     | .ref _ => .error .valueError
+    | .tup _ => .error .valueError
     | .int n =>
       match boundsOf cells p with
       | .error e => .error e
@@ -282,6 +292,7 @@ inductive Op
   | mkInst (k : ClsId) (kwargs : List (Name × Lit))     -- `K(x=v, ..)`
   | setVal (t : Target) (x : Name) (v : Lit)            -- `obj.x = v` / `K.x = v`
   | mutVal (t : Target) (x : Name) (v : Int)            -- `obj.x.append(v)` / `K.x.append(v)`
+  | mutItem (t : Target) (x : Name) (i : Nat) (v : Int) -- `obj.x[i].append(v)` / `K.x[i].append(v)` (tuple of lists)
   | access (i : InstId) (x : Name)                      -- `obj.param.x`
   | slotSet (t : Target) (x : Name) (s : SlotSet)       -- `obj.param.x.bounds = ..` / `K.param.x.bounds = ..`
   | slotMut (t : Target) (x : Name) (m : SlotMut)       -- `obj.param.x.objects.append(v)` ..
@@ -455,7 +466,17 @@ def doMutVal (w : World) (t : Target) (x : Name) (n : Int) : World × Option Err
   | none => (w, some .unsupported)
   | some .none => (w, some .attributeError)
   | some (.int _) => (w, some .attributeError)
+  | some (.tup _) => (w, some .attributeError)      -- a tuple has no `append`
   | some (.ref c) => ({ w with cells := w.cells.set c (deref w.cells c ++ [n]) }, none)
+
+/-- `target.x[i].append(v)`: in-place mutation of an item of the tuple the attribute evaluates to -/
+def doMutItem (w : World) (t : Target) (x : Name) (i : Nat) (n : Int) : World × Option Err :=
+  match w.read t x with
+  | some (.tup cs) =>
+    match cs[i]? with
+    | some c => ({ w with cells := w.cells.set c (deref w.cells c ++ [n]) }, none)
+    | none => (w, some .unsupported)
+  | _ => (w, some .unsupported)
 
 /-- where a Parameter object lives -/
 inductive Loc
@@ -566,6 +587,7 @@ def step (w : World) : Op → World × Option Err
   | .setVal (.inst i) x v => doSetInst w i x v
   | .setVal (.cls k) x v => doSetCls w k x v
   | .mutVal t x n => doMutVal w t x n
+  | .mutItem t x i n => doMutItem w t x i n
   | .access i x => doAccess w i x
   | .slotSet t x s => doSlotSet w t x s
   | .slotMut t x m => doSlotMut w t x m
